@@ -909,3 +909,167 @@ func genPadRecipe(r *rand.Rand, k int, pool []*chainInfo) *scenario {
 	}
 	return sc
 }
+
+// ---------------------------------------------------------------- commits padded with genuine nil precommits
+
+// buildNilPadded forges ONE light block at height th that keeps the genuine validator set of th.  The
+// coalition signs FOR the forged block; every other validator's slot carries a genuine precommit FOR NIL
+// of the same (chain id, height, round) - the kind honest validators broadcast in a failed round; nothing
+// in a nil vote binds it to a block.  For-block power is at most 2/3 of the set; for-block plus for-nil
+// power exceeds 2/3.  someAbsent leaves a few of the non-coalition slots absent (keeping for+nil > 2/3).
+func buildNilPadded(r *rand.Rand, ci *chainInfo, t0, th int64, coalition map[string]bool, class string, round int32, someAbsent bool) *fork {
+	f := &fork{blocks: map[int64]*types.LightBlock{}, plan: map[int64]func() *types.LightBlock{}, hdrs: map[int64]*types.Header{}}
+	canon := ci.lbs[th]
+	vals := ci.sets[th]
+	hdr := *canon.Header
+	hdr.DataHash = randHash(r)
+	if r.Intn(2) == 0 {
+		hdr.Time = hdr.Time.Add(time.Duration(1+r.Intn(300)) * time.Millisecond)
+	}
+	bid := types.BlockID{Hash: hdr.Hash(), PartSetHeader: types.PartSetHeader{Total: 1, Hash: randHash(r)}}
+	tot := vals.TotalVotingPower()
+	absent := map[int]bool{}
+	if someAbsent {
+		var ap int64
+		for _, i := range r.Perm(vals.Size()) {
+			v := vals.Validators[i]
+			if !coalition[string(v.Address)] && (ap+v.VotingPower)*3 < tot && r.Intn(2) == 0 {
+				absent[i] = true
+				ap += v.VotingPower
+			}
+		}
+	}
+	nNil := 0
+	commit := ci.ch.SignCommit(vals, th, round, bid, func(i int, v *types.Validator) types.BlockIDFlag {
+		switch {
+		case coalition[string(v.Address)]:
+			return types.BlockIDFlagCommit
+		case absent[i]:
+			return types.BlockIDFlagAbsent
+		}
+		nNil++
+		return types.BlockIDFlagNil
+	}, func(i int) time.Time { return hdr.Time.Add(time.Duration(500+i) * time.Millisecond) })
+	hc := hdr
+	lb := &types.LightBlock{SignedHeader: &types.SignedHeader{Header: &hc, Commit: commit}, ValidatorSet: vals.Copy()}
+	lb.ValidatorSet.TotalVotingPower()
+	f.blocks[th] = lb
+	f.hdrs[th] = &hc
+	cp, t := powerOf(vals, coalition)
+	cp0, t00 := powerOf(ci.sets[t0], coalition)
+	f.desc = forkDesc{Kind: fmt.Sprintf("commit padded with genuine nil precommits (round %d, %d nil slots, %d absent; for-block power %s/%s of the own set, %s/%s of the trusted set)",
+		round, nNil, len(absent), cp, t, cp0, t00), From: th, To: th, Class: class, Coalition: len(coalition), PhiFrom: cp.String() + "/" + t.String(), Heights: []int64{th}}
+	return f
+}
+
+// genNilRecipe: recipe family "nil-padded commit" (see buildNilPadded); deliveries as in genPadRecipe:
+//
+//	0 primary + colluding witness, non-adjacent target, skipping mode (direct jump and, when that cannot
+//	  be trusted, bisection whose last step is the adjacent one onto the forged header)
+//	1 adjacent step: sequential mode, or skipping mode with target = root+1
+//	2 the primary fails the target request; a promoted witness supplies it, another witness colludes
+//	3 honest primary; a witness serves it as its conflicting header (detector path); another witness is honest
+func genNilRecipe(r *rand.Rand, k int, pool []*chainInfo) *scenario {
+	ci := pool[(k*5+4)%len(pool)]
+	sc := &scenario{ci: ci}
+	d := &sc.desc
+	d.Stream, d.Case = "recipe-nil", k
+	d.Chain, d.ChainLen, d.Churn, d.Vals = ci.idx, ci.n, ci.churn, ci.nvals
+	n := ci.n
+	delivery := k % 4
+	tl := [][2]int64{{1, 3}, {1, 2}, {2, 3}}[(k/4)%3]
+	class := []string{"one validator below 1/3", "between 1/3 and 2/3"}[(k/12)%2]
+	round := int32((k / 24) % 3)
+	someAbsent := (k/72)%2 == 1
+	d.Mode = "skipping"
+	d.Root = between(r, 1, n-6)
+	target := between(r, d.Root+2, min64(n, d.Root+40))
+	if delivery == 1 {
+		if (k/4)%2 == 0 {
+			d.Mode = "sequential"
+			target = between(r, d.Root+1, min64(n, d.Root+8))
+		} else {
+			target = d.Root + 1
+		}
+	}
+	if d.Mode == "sequential" {
+		tl = [2]int64{1, 3}
+	}
+	d.TrustNum, d.TrustDen = tl[0], tl[1]
+	period := time.Duration(n+50) * ci.interval * 2
+	d.PeriodMs = period.Milliseconds()
+	drift := 5 * time.Millisecond
+	d.DriftMs = 5
+	sc.par = params{chainID: ci.ch.ChainID, period: period, drift: drift, num: tl[0], den: tl[1]}
+	d.DeltaUs = 300
+	own := ci.sets[target]
+	if class == "between 1/3 and 2/3" {
+		sc.coalition = pickCoalition(r, ci, "mid", target, target)
+	} else {
+		sc.coalition = map[string]bool{}
+		tot := own.TotalVotingPower()
+		var K *types.Validator
+		for _, i := range r.Perm(own.Size()) {
+			v := own.Validators[i]
+			if v.VotingPower*3 < tot && (K == nil || r.Intn(2) == 0) {
+				K = v
+			}
+		}
+		if K != nil {
+			sc.coalition[string(K.Address)] = true
+		}
+	}
+	f := buildNilPadded(r, ci, d.Root, target, sc.coalition, class, round, someAbsent)
+	sc.forks = append(sc.forks, f)
+	d.Recipe = fmt.Sprintf("nil-padded commit, delivery %d: %s", delivery, f.desc.Kind)
+	now := ci.time(n).Add(2 * time.Second)
+	cd := callDesc{Op: []string{"verify_at", "verify_header"}[(k/5)%2], Height: target, now: now, NowMs: now.Sub(ci.ch.Opt.GenesisTime).Milliseconds()}
+	forged := *f.hdrs[target]
+	switch delivery {
+	case 0, 1:
+		p := sc.newProv(r, 0, "primary", "fork", ci.forkView(f))
+		p.reliable = true
+		w := sc.newProv(r, 1, "witness", "fork", ci.forkView(f))
+		w.reliable = true
+		sc.provs = []*prov{p, w}
+		if (k/16)%2 == 1 {
+			q := sc.newProv(r, 2, "witness", "silent", ci.canonView())
+			q.desc.Rules = []rule{{Act: "noresp", HLo: d.Root + 1}}
+			sc.provs = append(sc.provs, q)
+		}
+		cd.hdr, cd.HdrFrom = &forged, "fork"
+	case 2:
+		p := sc.newProv(r, 0, "primary", "flaky", ci.canonView())
+		p.desc.Rules = []rule{{Act: []string{"noresp", "notfound"}[(k/16)%2], HLo: target, HHi: target}}
+		w1 := sc.newProv(r, 1, "witness", "fork", ci.forkView(f))
+		w1.reliable = true
+		w2 := sc.newProv(r, 2, "witness", "fork", ci.forkView(f))
+		w2.reliable = true
+		sc.provs = []*prov{p, w1, w2}
+		cd.hdr, cd.HdrFrom = &forged, "fork"
+	default:
+		p := sc.newProv(r, 0, "primary", "honest", ci.canonView())
+		p.reliable = true
+		w1 := sc.newProv(r, 1, "witness", "fork", ci.forkView(f))
+		w1.reliable = true
+		w2 := sc.newProv(r, 2, "witness", "honest", ci.canonView())
+		w2.reliable = true
+		sc.provs = []*prov{p, w1, w2}
+		hc := *ci.lbs[target].Header
+		cd.hdr, cd.HdrFrom = &hc, "canonical"
+	}
+	ids := make([]int, 0, len(sc.provs)-1)
+	for i := 1; i < len(sc.provs); i++ {
+		ids = append(ids, i)
+	}
+	cd.Perm = append([]int{0}, nthPerm(ids, k/2)...)
+	d.Calls = []callDesc{cd}
+	d.InitPerm = append([]int{0}, ids...)
+	for _, f := range sc.forks {
+		d.Forks = append(d.Forks, f.desc)
+	}
+	for _, q := range sc.provs {
+		d.Providers = append(d.Providers, q.desc)
+	}
+	return sc
+}
